@@ -301,7 +301,7 @@ def new_result():
 
 
 def shards(tier, seed, scale=1.0):
-    nsh, per, ninit = {"quick": (16, 5, 3), "thorough": (32, 60, 8)}[tier]
+    nsh, per, ninit = {"quick": (16, 5, 3), "thorough": (96, 4, 6)}[tier]
     per = max(1, int(per * scale))
     return [{"name": "lfi-%d" % s, "seed": sub(seed, ID, s), "cases": per, "ninit": ninit, "wall_limit_s": WALL_S[tier]} for s in range(nsh)]
 
